@@ -5,7 +5,7 @@
 including the error cases (empty input, values out of range, missing keys, wrong types); the two answers
 are compared as value-or-exception-class (and, for the reader's coroutines, the bytes left on the stream).
 
-    pycode.check(res, rng, tier, groups)      groups ⊆ {frame, schedule, uid, params, requests, reader, structparams}
+    pycode.check(res, rng, tier, groups)      groups ⊆ {frame, schedule, uid, params, requests, reader, structparams, sensors}
 
 is called at the start of the harness of the properties concerned; a difference is a `corr` failure
 ("the translated definition does not mean what the Python function does": the translator / prelude is wrong,
@@ -72,6 +72,17 @@ def show(v):
         return "False"
     if isinstance(v, int):
         return str(int(v))
+    if isinstance(v, float):
+        # a wire float: the bit pattern it was read from (binary32 when the value is one), every NaN alike
+        if v != v:
+            return "Fnan"
+        try:
+            b = struct.pack("<f", v)
+            if struct.unpack("<f", b)[0] == v:
+                return f"F4:{int.from_bytes(b, 'little')}"
+        except OverflowError:
+            pass
+        return f"F8:{int.from_bytes(struct.pack('<d', v), 'little')}"
     if isinstance(v, (bytes, bytearray)):
         return "b" + hexs(v)
     if isinstance(v, str):
@@ -403,7 +414,96 @@ def cases_structparams(rng, quick):
             yield nm + ".decode", method(cls, "decode"), [inst, bytearray(msg) if msg is not None else None, off, None], 0
 
 
-GROUPS = {"frame": cases_frame, "schedule": cases_schedule, "uid": cases_uid, "params": cases_params, "requests": cases_requests,
+F32S = [0x7FC00000, 0xFFC00000, 0x7F800001, 0x7F800000, 0xFF800000, 0, 0x80000000, 1, 0x80000001, 0x41AC0000, 0xC1AC0000,
+        0x3F800000, 0x42480000, 0x7F7FFFFF]
+
+
+def f32(rng):
+    r = rng.random()
+    if r < 0.6:
+        return struct.pack("<I", rng.choice(F32S))
+    if r < 0.8:
+        return struct.pack("<f", rng.choice([20.0, 21.5, 45.25, -3.0, 0.5, 100.0]))
+    return rbytes(rng, 4)
+
+
+def sinst(**attrs):
+    return Inst("S" + ",".join(f"{k}=i{v}" for k, v in attrs.items()), dict(attrs))
+
+
+ODD_CALLS = [(b"", 0), (b"\x00", 0), (b"\x00\x01", 0), (b"\x01\x02\x03", 0), (b"\x00\x00\x01\x01", 9), (b"\x00\x00\x01\x01", -1),
+             (b"\x00\x00\x01\x01\x02\x03\x04\x05\x06\x07", -4), (bytes(range(40)), -30), (None, 0), (b"\x00\x00\x01\x01", None), (b"\xff", 0),
+             (b"\x07\xff", 1)]
+
+
+def cases_sensors(rng, quick):
+    import importlib
+    n = 25 if quick else 400
+    plain = Inst("S")
+
+    def S(mod, cls):
+        return getattr(importlib.import_module("pyplumio.structures." + mod), cls)
+
+    # --- thermostat sensors: contacts byte (0xFF: absent), count, 9 bytes per thermostat (connected or not)
+    T = S("thermostat_sensors", "ThermostatSensorsStructure")
+    for _ in range(n):
+        off = rng.choice([0, 0, 1, 3])
+        cnt = rng.choice([0, 1, 2, 3, 3, 4, 5, 9])
+        contacts = rng.choice([0xFF, 0, 0x3F, 0x07, 0x38, rng.randrange(255), rng.randrange(255)])
+        body = b"".join(bytes([rng.randrange(256)]) + f32(rng) + f32(rng) for _ in range(cnt))
+        msg = mangle(rng, rbytes(rng, off) + bytes([contacts, cnt]) + body + rbytes(rng, rng.choice([0, 0, 2])))
+        yield "ThermostatSensorsStructure.decode", method(T, "decode"), [plain, bytearray(msg), off, rng.choice(DATAS)], 0
+        k = rng.choice([0, 2, 2, 11, len(msg), len(msg) + 2])
+        st = sinst(_offset=k, _contact_mask=rng.choice([1, 2, 4, 64]), _schedule_mask=rng.choice([8, 16, 1, 512]))
+        yield "ThermostatSensorsStructure._unpack_thermostat_sensors", method(T, "_unpack_thermostat_sensors"), \
+            [st, bytearray(msg), contacts], 0
+        yield "ThermostatSensorsStructure._thermostat_sensors", method(T, "_thermostat_sensors", True), \
+            [st, bytearray(msg), cnt, contacts], 0
+    # --- mixer sensors: count, 8 bytes per mixer
+    M = S("mixer_sensors", "MixerSensorsStructure")
+    for _ in range(n):
+        off = rng.choice([0, 0, 1, 3])
+        cnt = rng.choice([0, 1, 2, 3, 5])
+        body = b"".join(f32(rng) + rbytes(rng, 4) for _ in range(cnt))
+        msg = mangle(rng, rbytes(rng, off) + bytes([cnt]) + body + rbytes(rng, rng.choice([0, 0, 2])))
+        yield "MixerSensorsStructure.decode", method(M, "decode"), [plain, bytearray(msg), off, rng.choice(DATAS)], 0
+        k = rng.choice([0, 1, 1, 9, len(msg), len(msg) + 2, max(0, len(msg) - 5)])
+        yield "MixerSensorsStructure._unpack_mixer_sensors", method(M, "_unpack_mixer_sensors"), [sinst(_offset=k), bytearray(msg)], 0
+        yield "MixerSensorsStructure._mixer_sensors", method(M, "_mixer_sensors", True), [sinst(_offset=k), bytearray(msg), cnt], 0
+    # --- one-field sections
+    one = [("fuel_level", "FuelLevelStructure", lambda: bytes([rng.choice([0xFF, 0, 100, 101, 102, 254, rng.randrange(256)])])),
+           ("boiler_load", "BoilerLoadStructure", lambda: bytes([rng.choice([0xFF, 0, 100, rng.randrange(256)])])),
+           ("pending_alerts", "PendingAlertsStructure", lambda: bytes([rng.choice([0, 1, 3, 255, rng.randrange(256)])])),
+           ("fan_power", "FanPowerStructure", lambda: f32(rng)),
+           ("boiler_power", "BoilerPowerStructure", lambda: f32(rng)),
+           ("fuel_consumption", "FuelConsumptionStructure", lambda: f32(rng)),
+           ("output_flags", "OutputFlagsStructure", lambda: rng.choice([bytes(4), b"\xff" * 4, b"\x04\0\0\0", b"\x08\0\0\0", b"\x10\0\0\0", b"\0\x08\0\0",
+                                                                         b"\x1c\x08\0\0", rbytes(rng, 4)])),
+           ("outputs", "OutputsStructure", lambda: rng.choice([bytes(4), b"\xff" * 4, rbytes(rng, 4), struct.pack("<I", 1 << rng.randrange(32))])),
+           ("statuses", "StatusesStructure", lambda: rbytes(rng, 4)),
+           ("lambda_sensor", "LambdaSensorStructure", lambda: rng.choice([b"\xff", bytes([rng.choice([0, 1, 2, 3, 4, 7])]) + rbytes(rng, 3)])),
+           ("temperatures", "TemperaturesStructure",
+            lambda: (lambda c: bytes([c]) + b"".join(bytes([rng.choice([0, 1, 2, 5, 16, 17, 18, 200, rng.randrange(20)])]) + f32(rng) for _ in range(c)))(rng.choice([0, 1, 2, 3, 6]))),
+           ("frame_versions", "FrameVersionsStructure",
+            lambda: (lambda c: bytes([c]) + b"".join(bytes([rng.choice([49, 50, 61, 54, 0, 200, rng.randrange(256)])]) + rbytes(rng, 2) for _ in range(c)))(rng.choice([0, 1, 2, 3, 6]))),
+           ]
+    for mod, cls, gen in one:
+        try:
+            C = S(mod, cls)
+        except (ImportError, AttributeError):
+            continue
+        for _ in range(n):
+            off = rng.choice([0, 0, 1, 3])
+            msg = mangle(rng, rbytes(rng, off) + gen() + rbytes(rng, rng.choice([0, 0, 2])))
+            yield cls + ".decode", method(C, "decode"), [plain, bytearray(msg), off, rng.choice(DATAS)], 0
+        for msg, off in ODD_CALLS:
+            yield cls + ".decode", method(C, "decode"), [plain, bytearray(msg) if msg is not None else None, off, None], 0
+    for C, nm in ((T, "ThermostatSensorsStructure"), (M, "MixerSensorsStructure")):
+        for msg, off in ODD_CALLS:
+            yield nm + ".decode", method(C, "decode"), [plain, bytearray(msg) if msg is not None else None, off, None], 0
+
+
+GROUPS = {"sensors": cases_sensors, "frame": cases_frame, "schedule": cases_schedule, "uid": cases_uid, "params": cases_params, "requests": cases_requests,
           "structparams": cases_structparams}
 
 
@@ -412,6 +512,7 @@ def check(res, rng, tier, groups):
     quick = tier == "quick"
     reqs, expect, inputs = [], [], []
     have = set(driver_batch(["py-functions"])[0].split())
+    stateful = set(driver_batch(["py-stateful"])[0].split())
     missing = set()
     for g in groups:
         if g == "reader":
@@ -435,7 +536,9 @@ def check(res, rng, tier, groups):
                 missing.add(name)
                 continue
             try:
-                line = f"py {name} {fuel} - " + " ".join(enc(a) for a in args)
+                # a method that does not touch attributes of `self` is translated without the instance argument
+                largs = args[1:] if (args and isinstance(args[0], Inst) and args[0].atom == "S" and name not in stateful) else args
+                line = f"py {name} {fuel} - " + " ".join(enc(a) for a in largs)
             except TypeError:
                 continue
             reqs.append(line)
